@@ -21,8 +21,8 @@ What is modelled, branch by branch (openapi3gen/openapi3gen.go, field_info.go, t
   * `appendFields`: `json:"-"`, embedded structs without tag are flattened (one pointer stripped), embedded
     non-struct types are NOT discovered (encoding/json emits them), "private" = lower-case first rune (encoding/json:
     unexported), tag name / `omitempty` / `string` options;
-  * cycle cutting: `generateCycleSchemaRef` (pointer stripped, slice/map wrappers — recursing forever on
-    `type L []L` —, `$ref` to the component named by the type-name generator, registration in
+  * cycle cutting: `generateCycleSchemaRef` (pointer stripped, slice/map wrappers, an unconstrained schema for a
+    container met again below itself — `type L []L`, repair 0916db1 —, `$ref` to the component named by the type-name generator, registration in
     `componentSchemaRefs`, the enclosing struct's schema as the reference's `Value`);
   * `NewSchemaRefForValue`: every registered component name is filled from ANY entry of `g.SchemaRefs` whose
     (trimmed) reference name equals it and whose Value has properties (Go map iteration order decides which one:
@@ -563,10 +563,9 @@ def leaf (ty : String) (nl : Bool) (fmt : String) (lo hi : Option Int) : Sch :=
   .node ty nl fmt lo hi none [] none false
 
 /-- outcome of generateSchemaRefFor: a schema, `CycleError`, the customizer's `ExcludeSchemaSentinel` (nil, nil),
-    another error, unbounded recursion of `generateCycleSchemaRef` (fatal stack overflow in Go), or out of fuel
-    (`gen_finite`: never with enough fuel) -/
+    another error, or out of fuel (`gen_finite`: never with enough fuel) -/
 inductive R where
-  | ok (s : Sch) | cycle | nofuel | excluded | err | diverge
+  | ok (s : Sch) | cycle | nofuel | excluded | err
 
 /-- generator state: `g.Types`; the entries of `g.SchemaRefs` that can fill a component, as (reference name after
     the trimming done by the export loop, `Name()` of the Go type whose schema it is, the `Value`);
@@ -595,15 +594,27 @@ def kindContainer : GoType → Bool
 def arrWrap (r : Sch) : Sch := .node "array" false "" none none (some r) [] none true
 def mapWrap (r : Sch) : Sch := .node "object" false "" none none none [] (some r) true
 
-/-- generateCycleSchemaRef; `none`: it never returns (`t.Elem()` of `type L []L` is `L` again) -/
-def cycleSch (o : Opts) : GoType → Option Sch
+/-- `openapi3.NewSchema()`: no keyword -/
+def emptySch : Sch := .node "" false "" none none none [] none false
+
+/-- generateCycleSchemaRef (0916db1: it carries the types it has seen; a container met again below itself —
+    `t.Elem()` of `type L []L` is `L` again — gets an unconstrained schema) -/
+def cycleSch (o : Opts) : GoType → Sch
   | .ptr t => cycleSch o t
-  | .slice t => (cycleSch o t).map arrWrap
-  | .map t => (cycleSch o t).map mapWrap
-  | .bytes => some (arrWrap (.ref (typeName o "uint8")))
-  | .recs _ => none
-  | .defd n t => if kindContainer t then cycleSch o t else some (.ref (typeName o n))
-  | t => some (.ref (typeName o (goName t)))
+  | .slice t => arrWrap (cycleSch o t)
+  | .map t => mapWrap (cycleSch o t)
+  | .bytes => arrWrap (.ref (typeName o "uint8"))
+  | .recs m => if m then mapWrap emptySch else arrWrap emptySch
+  | .defd n t => if kindContainer t then cycleSch o t else .ref (typeName o n)
+  | t => .ref (typeName o (goName t))
+/-- the spine ends in a self-recursive container: generateCycleSchemaRef returns before it names a component -/
+def spineRecs : GoType → Bool
+  | .ptr t => spineRecs t
+  | .slice t => spineRecs t
+  | .map t => spineRecs t
+  | .defd _ t => kindContainer t && spineRecs t
+  | .recs _ => true
+  | _ => false
 def cycleName (o : Opts) : GoType → String
   | .ptr t => cycleName o t
   | .slice t => cycleName o t
@@ -628,9 +639,9 @@ def addComp (n : String) (σ : St) : St :=
 
 /-- the ways a generation fails -/
 inductive Fail where
-  | cycle | nofuel | err | diverge
+  | cycle | nofuel | err
 def Fail.toR : Fail → R
-  | .cycle => .cycle | .nofuel => .nofuel | .err => .err | .diverge => .diverge
+  | .cycle => .cycle | .nofuel => .nofuel | .err => .err
 
 /-- what a caller of generateSchemaRefFor does with the result -/
 inductive Child where
@@ -642,13 +653,11 @@ def childOf (o : Opts) (e : GoType) : R × St → Child × St
   | (.ok s, σ) => (.some s, σ)
   | (.excluded, σ) => (.skip, σ)
   | (.cycle, σ) =>
-    if o.throwCycle then (.fail .cycle, σ) else
-    (match cycleSch o e with
-     | some s => (.some s, note "cycle.cut" (addComp (cycleName o e) { σ with anon := σ.anon || !spineNamed e }))
-     | none => (.fail .diverge, σ))
+    if o.throwCycle then (.fail .cycle, σ)
+    else if spineRecs e then (.some (cycleSch o e), note "cycle.cut" σ)
+    else (.some (cycleSch o e), note "cycle.cut" (addComp (cycleName o e) { σ with anon := σ.anon || !spineNamed e }))
   | (.nofuel, σ) => (.fail .nofuel, σ)
   | (.err, σ) => (.fail .err, σ)
-  | (.diverge, σ) => (.fail .diverge, σ)
 
 def sliceOf (nl : Bool) : Child × St → R × St
   | (.some it, σ) => (.ok (.node "array" nl "" none none (some it) [] none false), σ)
@@ -927,22 +936,5 @@ def Dangling (σ : St) : Prop := danglingB σ = true
 def WrongComponent (o : Opts) (σ : St) : Prop := wrongCandB o σ = true
 instance : Decidable (Dangling σ) := by unfold Dangling; exact inferInstance
 instance : Decidable (WrongComponent o σ) := by unfold WrongComponent; exact inferInstance
-
--- finding: the self-recursive container types, on which generateCycleSchemaRef recurses forever
-mutual
-def hasRecs : GoType → Bool
-  | .recs _ => true
-  | .ptr t => hasRecs t
-  | .slice t => hasRecs t
-  | .map t => hasRecs t
-  | .defd _ t => hasRecs t
-  | .struct fs => hasRecsFs fs
-  | _ => false
-def hasRecsFs : Fields → Bool
-  | [] => false
-  | (_, t) :: r => hasRecs t || hasRecsFs r
-end
-def RecContainer (Δ : Decls) (t : GoType) : Prop := (hasRecs t || Δ.any (fun d => hasRecsFs d.2)) = true
-instance : Decidable (RecContainer Δ t) := by unfold RecContainer; exact inferInstance
 
 end KinModel.Gen3
